@@ -116,3 +116,24 @@ _c("C05",
    "norm via factor (C^T C = K => |Cc|^2 = c^T K c); cross map lists exactly the parent tuples once; factory data rows follow the taxa; UC / EMBV / OHV block-maximum definitions; the repaired PAU class equals its definition for every target frequency.",
    "Cholesky/jitter under the contract C^T C = K (re-checked on every factory case); variance factories stubbed (C12); haplotype bounds observed (C18); numpy.power/arcsin values handed to the model. "
    "Partial: scale_invariant_partial and encodings_agree_real_total_partial (outside the 1e-10 total guard; counterexample inside). D50-D54 fixed in /repo (pre-repair counterexamples kept).")
+_c("C17",
+   "27 theorems (Props/C17.lean) over any ordered field with floor, all lengths/sizes/shapes and every value the generator can deliver: SUS returns exactly prod(size) draws, every draw is an index of p, each element is chosen floor or ceiling of its expected count "
+   "for EVERY offset in [0, ptr_dist) incl. 0, zero weight is never selected; sus_loop_safe_under_any_rounding: with pointers, cumulative sums and comparison outcomes arbitrary the guarded loop still yields one index per pointer, never raises, never selects zero weight; "
+   "tiled_choice: counts differ by at most one, exactly n mod m options get the extra use; axis_shuffle permutes only within the requested slices (literal sliceaxisix recursion characterised); outcross_shuffle preserves the multiset, never increases "
+   "the repeats (total and per row), terminates, and on exit no exchange of two entries lowers the total.",
+   "argsort/shuffle/choice/uniform results are oracle inputs validated against what the call can return and replayed on a second generator (crafted MT19937 states give u = 0, 2^-53, 1-2^-53). Binary64 residual: the floor/ceil clause is proved over exact scalars; "
+   "an interior pointer within one rounding unit of a cumulative boundary is covered by correspondence + per-run Spec only. axis_shuffle is modelled in gather form (tied to the in-place slice loop by correspondence). D7a/b/c fixed in /repo (pre-repair counterexamples kept).")
+_c("C16",
+   "18 theorems (Props/C16.lean): an HDF5 file as a finite map path -> dataset; for ANY sequence of overwriting to_hdf5 calls of any of the 8 classes to prefix-free groups, from_hdf5 at a location returns exactly the object written there last "
+   "(poorer-over-richer included) and other groups do not interfere; overwrite=False refuses and leaves the file unchanged; group strings matter only through their normalised path; shallow and deep copies equal the source, deep copies share no buffer and "
+   "any in-place writes to one side never show in the other; VCF import reproduces names, coordinates and every phased call in (phase, taxon, variant) order (grouped: a permutation in (chromosome, position) order, labels and calls travel together); "
+   "breeding-value and genetic-map frames round-trip with matching options (same unit on both sides).",
+   "h5py / pandas / CSV text / cyvcf2 entered through 'a dataset (column, record field) read equals the one written'; from_numpy re-standardisation is C15's; coancestry/variance/extended-map frame layouts are Spec-only (no Lean model). "
+   "D8 and D29 fixed in /repo (pre-repair counterexamples kept).")
+_c("C03",
+   "23 theorems (Props/C03.lean) about a generic label-bundle model (3-level array + taxa/vrnt/trait label bundles + group metadata + class schema): every numpy primitive used commutes with map, so data and each label array move by ONE index list; "
+   "for every history of select/delete/remove/reorder/sort/group/ungroup/adjoin/append/insert/incorp/concat (any index form, any length) every labelled cell of the result is a labelled cell of the initial state or of an operand block; "
+   "after group, a matrix that reports itself grouped has metadata that are a true contiguous partition with strictly increasing names, preserved by EVERY history (grouped_invariant, full); mutating = pure; generic = specific; "
+   "masked genotyping keeps cells attached. 11 classes + 3 genotyping protocols are driven through random histories with full state comparison after every step.",
+   "numpy primitives as modelled (differentially tested each run incl. the scalar-insert rule); copy.deepcopy trusted. Partial: operand_op_attached_partial / history_preserves_entities_partial / unary_op_attached_partial exclude the square (two-axis) bundles "
+   "affected by the known findings D14 (square single-axis insert/incorp/concat gives a non-square matrix) and D27 (square-taxa-trait pure ops drop the other bundle's labels); DenseBreedingValueMatrix is C15's. D3, D4, D17, D28 fixed in /repo.")
